@@ -42,25 +42,25 @@ def run(ck):
                 return m, s
 
             paths = paths_of(prog, th, sticky=True)
-            p = single(paths, inst)
-            it = p.interp
-            m, s = p.value
-            am = it.get_attr(s, "rbm_am", None)
-            ck.check(isinstance(am, VObj) and am.inst is m.inst, "C20.R1", inst + ":uses the given module as amplitude network", isite, "rbm_am is not the user-supplied module")
-            ck.ok("C20.R1", inst + ":constructible", isite)
-            for attr in ("num_visible", "num_hidden") + (("num_aux",) if cls == "DensityMatrix" else ()):
-                sv_, mv_ = s.inst.attrs.get(attr), m.inst.attrs.get(attr)
-                ck.check(num_term(sv_) is not None and num_term(sv_) == num_term(mv_), "C20.R2", inst + ":%s read back from the module" % attr, isite, "%s of the state is not the module's" % attr)
-            if cls != "PositiveWaveFunction":
-                ph = it.get_attr(s, "rbm_ph", None)
-                ok = isinstance(ph, VObj) and ph.inst is not am.inst and ph.inst.cls is am.inst.cls
-                ck.check(ok, "C20.R2", inst + ":phase network is a separate object", isite, "rbm_ph is the same object as rbm_am (or of another class)")
-                if ok:
-                    pa, pp = param_objs(it, am), param_objs(it, ph)
-                    shared = [o for o in pp if any(o in x.roots() for x in pa)]
-                    ck.check(not shared and len(pa) == len(pp) and len(pp) > 0, "C20.R2", inst + ":independent parameter storage", isite,
-                             "the phase network shares parameter storage with the amplitude network (changing one changes the other)")
-                    ck.check([x.shape for x in pa] == [x.shape for x in pp], "C20.R2", inst + ":copy has the same shapes", isite, "the phase network's parameter shapes differ from the module's")
+            for p in returning(paths, inst):
+                it = p.interp
+                m, s = p.value
+                am = it.get_attr(s, "rbm_am", None)
+                ck.check(isinstance(am, VObj) and am.inst is m.inst, "C20.R1", inst + ":uses the given module as amplitude network", isite, "rbm_am is not the user-supplied module")
+                ck.ok("C20.R1", inst + ":constructible", isite)
+                for attr in ("num_visible", "num_hidden") + (("num_aux",) if cls == "DensityMatrix" else ()):
+                    sv_, mv_ = s.inst.attrs.get(attr), m.inst.attrs.get(attr)
+                    ck.check(num_term(sv_) is not None and num_term(sv_) == num_term(mv_), "C20.R2", inst + ":%s read back from the module" % attr, isite, "%s of the state is not the module's" % attr)
+                if cls != "PositiveWaveFunction":
+                    ph = it.get_attr(s, "rbm_ph", None)
+                    ok = isinstance(ph, VObj) and ph.inst is not am.inst and ph.inst.cls is am.inst.cls
+                    ck.check(ok, "C20.R2", inst + ":phase network is a separate object", isite, "rbm_ph is the same object as rbm_am (or of another class)")
+                    if ok:
+                        pa, pp = param_objs(it, am), param_objs(it, ph)
+                        shared = [o for o in pp if any(o in x.roots() for x in pa)]
+                        ck.check(not shared and len(pa) == len(pp) and len(pp) > 0, "C20.R2", inst + ":independent parameter storage", isite,
+                                 "the phase network shares parameter storage with the amplitude network (changing one changes the other)")
+                        ck.check([x.shape for x in pa] == [x.shape for x in pp], "C20.R2", inst + ":copy has the same shapes", isite, "the phase network's parameter shapes differ from the module's")
     # ------------------------------------------------------------------ R2/R3 size branch
     for cls in STATES:
         c = prog.cls(cls)
@@ -73,42 +73,42 @@ def run(ck):
                     kwargs["num_aux"] = dimval("na")
                 return it.instantiate(c, [], kwargs, None)
 
-            p = single(paths_of(prog, th, sticky=True), inst)
-            it = p.interp
-            s = p.value
-            nets = state_networks(it, s)
-            mods = [it.get_attr(s, n, None) for n in nets]
-            ck.check(all(isinstance(m, VObj) and m.inst.cls is prog.cls(RBM_OF[cls]) for m in mods), "C20.R3", inst + ":network classes", isite, "networks are not %s instances" % RBM_OF[cls])
-            if len(mods) == 2:
-                pa, pp = param_objs(it, mods[0]), param_objs(it, mods[1])
-                ck.check(mods[0].inst is not mods[1].inst and not (set(pa) & set(pp)), "C20.R2", inst + ":independent networks", isite, "amplitude and phase network share objects")
-            ctor = [r for r in p.calls if r[0] == RBM_OF[cls] + ".__init__"]
-            ck.check(len(ctor) == len(nets), "C20.R3", inst + ":one RBM per network", isite, "%d RBMs constructed for %d networks" % (len(ctor), len(nets)))
-            for r in ctor:
-                env = r[5]
-                for par, sym_ in (("num_visible", "nv"), ("num_hidden", "nh")) + ((("num_aux", "na"),) if cls == "DensityMatrix" else ()):
-                    ck.check(num_term(env.get(par)) == T.sym(sym_), "C20.R3", inst + ":%s bound to the RBM's %s" % (sym_, par), isite,
-                             "the RBM constructor receives %r as %s" % (num_term(env.get(par)), par))
-            want_shapes = {"BinaryRBM": [("nh", "nv"), ("nv",), ("nh",)], "PurificationRBM": [("nh", "nv"), ("na", "nv"), ("nv",), ("nh",), ("na",)]}[RBM_OF[cls]]
-            for m in mods:
-                ps = module_params(it, m)
-                ck.check([q.shape for _, q in ps] == want_shapes, "C20.R3", inst + ":parameter shapes", isite, "parameter shapes %s, expected %s" % ([q.shape for _, q in ps], want_shapes))
-                for nme, q in ps:
-                    t = q.term
-                    if len(q.shape) == 2:
-                        okw = t is not None and any(isinstance(a, T.App) and a.op == "rng_randn" for a in t.all_atoms()) and T.app("sqrt", T.sym("nv")) in [T.P(a) for a in t.all_atoms()]
-                        ck.check(okw, "C20.R3", inst + ":%s random / sqrt(num_visible)" % nme, isite, "weights are initialised as %r, expected randn/sqrt(num_visible)" % (t,))
-                    else:
-                        ck.check(t is not None and t.is_zero(), "C20.R3", inst + ":%s zero" % nme, isite, "bias %s is initialised as %r, expected zeros" % (nme, t))
+            for p in returning(paths_of(prog, th, sticky=True), inst):
+                it = p.interp
+                s = p.value
+                nets = state_networks(it, s)
+                mods = [it.get_attr(s, n, None) for n in nets]
+                ck.check(all(isinstance(m, VObj) and m.inst.cls is prog.cls(RBM_OF[cls]) for m in mods), "C20.R3", inst + ":network classes", isite, "networks are not %s instances" % RBM_OF[cls])
+                if len(mods) == 2:
+                    pa, pp = param_objs(it, mods[0]), param_objs(it, mods[1])
+                    ck.check(mods[0].inst is not mods[1].inst and not (set(pa) & set(pp)), "C20.R2", inst + ":independent networks", isite, "amplitude and phase network share objects")
+                ctor = [r for r in p.calls if r[0] == RBM_OF[cls] + ".__init__"]
+                ck.check(len(ctor) == len(nets), "C20.R3", inst + ":one RBM per network", isite, "%d RBMs constructed for %d networks" % (len(ctor), len(nets)))
+                for r in ctor:
+                    env = r[5]
+                    for par, sym_ in (("num_visible", "nv"), ("num_hidden", "nh")) + ((("num_aux", "na"),) if cls == "DensityMatrix" else ()):
+                        ck.check(num_term(env.get(par)) == T.sym(sym_), "C20.R3", inst + ":%s bound to the RBM's %s" % (sym_, par), isite,
+                                 "the RBM constructor receives %r as %s" % (num_term(env.get(par)), par))
+                want_shapes = {"BinaryRBM": [("nh", "nv"), ("nv",), ("nh",)], "PurificationRBM": [("nh", "nv"), ("na", "nv"), ("nv",), ("nh",), ("na",)]}[RBM_OF[cls]]
+                for m in mods:
+                    ps = module_params(it, m)
+                    ck.check([q.shape for _, q in ps] == want_shapes, "C20.R3", inst + ":parameter shapes", isite, "parameter shapes %s, expected %s" % ([q.shape for _, q in ps], want_shapes))
+                    for nme, q in ps:
+                        t = q.term
+                        if len(q.shape) == 2:
+                            okw = t is not None and any(isinstance(a, T.App) and a.op == "rng_randn" for a in t.all_atoms()) and T.app("sqrt", T.sym("nv")) in [T.P(a) for a in t.all_atoms()]
+                            ck.check(okw, "C20.R3", inst + ":%s random / sqrt(num_visible)" % nme, isite, "weights are initialised as %r, expected randn/sqrt(num_visible)" % (t,))
+                        else:
+                            ck.check(t is not None and t.is_zero(), "C20.R3", inst + ":%s zero" % nme, isite, "bias %s is initialised as %r, expected zeros" % (nme, t))
     for rbm in ("BinaryRBM", "PurificationRBM"):
         with ck.guard("C20.R3", rbm + "/zero_weights"):
             def thz(it):
                 kwargs = {"num_visible": dimval("nv"), "num_hidden": dimval("nh"), "gpu": VConst(False), "zero_weights": VConst(True)}
                 return it.instantiate(prog.cls(rbm), [], kwargs, None)
 
-            p = single(paths_of(prog, thz), rbm)
-            ok = all(q.term is not None and q.term.is_zero() for _, q in module_params(p.interp, p.value))
-            ck.check(ok, "C20.R3", rbm + "/zero_weights", prog.method(rbm, "initialize_parameters").site(), "zero_weights=True does not zero every parameter")
+            for p in returning(paths_of(prog, thz), rbm):
+                ok = all(q.term is not None and q.term.is_zero() for _, q in module_params(p.interp, p.value))
+                ck.check(ok, "C20.R3", rbm + "/zero_weights", prog.method(rbm, "initialize_parameters").site(), "zero_weights=True does not zero every parameter")
     # ------------------------------------------------------------------ R4 reinitialisation and fit guards
     for cls in STATES:
         rsite = prog.method(cls, "reinitialize_parameters").site()
@@ -121,22 +121,22 @@ def run(ck):
                 call(it, s, "reinitialize_parameters")
                 return s, before, sizes
 
-            p = single(paths_of(prog, th, sticky=True), inst)
-            it = p.interp
-            s, before, sizes = p.value
-            nets = state_networks(it, s)
-            ic = [r for r in p.calls if r[0].endswith(".initialize_parameters")]
-            done = []
-            for r in ic:
-                sv = r[5].get("self")
-                for n in nets:
-                    if it.get_attr(s, n, None).inst is sv.inst:
-                        done.append(n)
-            ck.check(sorted(done) == sorted(nets), "C20.R4", inst + ":every network redrawn", rsite, "initialize_parameters is called for %s; networks are %s" % (done, nets))
-            after = {n: [q.shape for _, q in module_params(it, it.get_attr(s, n, None))] for n in nets}
-            ck.check(after == before, "C20.R4", inst + ":shapes unchanged", rsite, "parameter shapes change on reinitialisation")
-            sizes2 = {k: num_term(v) for k, v in s.inst.attrs.items() if k.startswith("num_")}
-            ck.check(sizes2 == sizes, "C20.R4", inst + ":sizes unchanged", rsite, "num_* attributes change on reinitialisation")
+            for p in returning(paths_of(prog, th, sticky=True), inst):
+                it = p.interp
+                s, before, sizes = p.value
+                nets = state_networks(it, s)
+                ic = [r for r in p.calls if r[0].endswith(".initialize_parameters")]
+                done = []
+                for r in ic:
+                    sv = r[5].get("self")
+                    for n in nets:
+                        if it.get_attr(s, n, None).inst is sv.inst:
+                            done.append(n)
+                ck.check(sorted(done) == sorted(nets), "C20.R4", inst + ":every network redrawn", rsite, "initialize_parameters is called for %s; networks are %s" % (done, nets))
+                after = {n: [q.shape for _, q in module_params(it, it.get_attr(s, n, None))] for n in nets}
+                ck.check(after == before, "C20.R4", inst + ":shapes unchanged", rsite, "parameter shapes change on reinitialisation")
+                sizes2 = {k: num_term(v) for k, v in s.inst.attrs.items() if k.startswith("num_")}
+                ck.check(sizes2 == sizes, "C20.R4", inst + ":sizes unchanged", rsite, "num_* attributes change on reinitialisation")
     for cls in ("ComplexWaveFunction", "DensityMatrix"):
         fsite = prog.method(cls, "fit").site()
         inst = cls + ".fit without bases"
@@ -167,43 +167,43 @@ def run(ck):
             out["ph_grads"] = call(it, s, "ph_grads", tens(it, "v", ("E", "B", "nv")))
             return out
 
-        p = single(paths_of(prog, thg, sticky=True), "phase grads")
-        shape_err_verdict(ck, "C20.R5", "phase grads", [p])
-        o = p.value
-        k_d = o["order"].index(o["roles"]["d"])
-        k_U = o["order"].index(o["roles"]["U"])
-        for key, v in o.items():
-            if not isinstance(key, tuple):
-                continue
-            fn, expand = key
-            site = prog.method("PurificationRBM" if fn == "gamma_grad" else "DensityMatrix", fn).site()
-            segs = cat_segments(v.term) if v.term is not None else [None]
-            names = ["real", "imag"]
-            for part, sg in zip(names, segs):
-                inst = "%s/expand=%s/%s" % (fn, expand, part)
-                if sg == "zero":
-                    ck.ok("C20.R5", inst + ":aux_bias segment is zero", site)
+        for p in returning(paths_of(prog, thg, sticky=True), "phase grads"):
+            shape_err_verdict(ck, "C20.R5", "phase grads", [p])
+            o = p.value
+            k_d = o["order"].index(o["roles"]["d"])
+            k_U = o["order"].index(o["roles"]["U"])
+            for key, v in o.items():
+                if not isinstance(key, tuple):
                     continue
-                if sg is None or len(sg) != len(o["order"]):
-                    ck.undecided("C20.R5", inst, site, "gradient vector is not a concatenation of %d parameter segments" % len(o["order"]))
-                    continue
-                ck.check(sg[k_d].is_zero(), "C20.R5", inst + ":aux_bias segment is zero", site,
-                         "the phase network's auxiliary-bias gradient segment is %r, not structurally zero: the documented invariant aux_bias(rbm_ph) = 0 is not preserved by training" % (sg[k_d],))
-                if fn == "gamma_grad":
-                    ck.check(sg[k_U].is_zero(), "C20.R5", inst + ":weights_U segment is zero", site, "Gamma does not depend on U, but its U-gradient segment is %r" % (sg[k_U],))
-        # ph_grads = i*gamma_grad(-) + pi_grad(phase=True): the sum's aux segment
-        t = o["ph_grads"].term
-        comps = T.as_stack0(t) if t is not None else None
-        ok = None
-        if comps is not None:
-            ok = True
-            for c in comps:
-                # linear combination of cat atoms: every cat's aux segment must be zero
-                for a in c.all_atoms():
-                    if isinstance(a, T.App) and a.op == "cat" and len(a.args[0]) == len(o["order"]):
-                        if not a.args[0][k_d].is_zero():
-                            ok = False
-        ck.check(ok, "C20.R5", "ph_grads:aux_bias segment is zero", prog.method("DensityMatrix", "ph_grads").site(), "the assembled phase gradient has a non-zero auxiliary-bias segment")
+                fn, expand = key
+                site = prog.method("PurificationRBM" if fn == "gamma_grad" else "DensityMatrix", fn).site()
+                segs = cat_segments(v.term) if v.term is not None else [None]
+                names = ["real", "imag"]
+                for part, sg in zip(names, segs):
+                    inst = "%s/expand=%s/%s" % (fn, expand, part)
+                    if sg == "zero":
+                        ck.ok("C20.R5", inst + ":aux_bias segment is zero", site)
+                        continue
+                    if sg is None or len(sg) != len(o["order"]):
+                        ck.undecided("C20.R5", inst, site, "gradient vector is not a concatenation of %d parameter segments" % len(o["order"]))
+                        continue
+                    ck.check(sg[k_d].is_zero(), "C20.R5", inst + ":aux_bias segment is zero", site,
+                             "the phase network's auxiliary-bias gradient segment is %r, not structurally zero: the documented invariant aux_bias(rbm_ph) = 0 is not preserved by training" % (sg[k_d],))
+                    if fn == "gamma_grad":
+                        ck.check(sg[k_U].is_zero(), "C20.R5", inst + ":weights_U segment is zero", site, "Gamma does not depend on U, but its U-gradient segment is %r" % (sg[k_U],))
+            # ph_grads = i*gamma_grad(-) + pi_grad(phase=True): the sum's aux segment
+            t = o["ph_grads"].term
+            comps = T.as_stack0(t) if t is not None else None
+            ok = None
+            if comps is not None:
+                ok = True
+                for c in comps:
+                    # linear combination of cat atoms: every cat's aux segment must be zero
+                    for a in c.all_atoms():
+                        if isinstance(a, T.App) and a.op == "cat" and len(a.args[0]) == len(o["order"]):
+                            if not a.args[0][k_d].is_zero():
+                                ok = False
+            ck.check(ok, "C20.R5", "ph_grads:aux_bias segment is zero", prog.method("DensityMatrix", "ph_grads").site(), "the assembled phase gradient has a non-zero auxiliary-bias segment")
     with ck.guard("C20.R5", "all-Z branch"):
         g = prog.method("NeuralStateBase", "gradient")
         import ast
